@@ -2918,15 +2918,15 @@ let rx_dtd_key =
     (XO XH))))))) :: []))))))), (Cat ((Chr (false, (((Npos (XI (XI (XI (XO
     (XO XH)))))), (Npos (XI (XI (XI (XO (XO XH))))))) :: []))), (Cat ((Rep
     (true, O, None, (Chr (true, (((Npos (XI (XI (XI (XO (XO XH)))))), (Npos
-    (XI (XI (XI (XO (XO XH))))))) :: []))))), (Alt ((Chr (false, (((Npos (XI
-    (XI (XI (XO (XO XH)))))), (Npos (XI (XI (XI (XO (XO XH))))))) :: []))),
-    Eps)))))))))), (Cat ((Rep (true, O, None, (Chr (false, (((Npos (XO (XO
-    (XO (XO (XO XH)))))), (Npos (XO (XO (XO (XO (XO XH))))))) :: (((Npos (XI
-    (XO (XO XH)))), (Npos (XI (XO (XO XH))))) :: (((Npos (XI (XO (XI XH)))),
-    (Npos (XI (XO (XI XH))))) :: (((Npos (XO (XI (XO XH)))), (Npos (XO (XI
-    (XO XH))))) :: [])))))))), (Chr (false, (((Npos (XO (XI (XI (XI (XI
-    XH)))))), (Npos (XO (XI (XI (XI (XI
-    XH))))))) :: []))))))))))))))))))))))))))))
+    (XI (XI (XI (XO (XO XH))))))) :: []))))), (Chr (false, (((Npos (XI (XI
+    (XI (XO (XO XH)))))), (Npos (XI (XI (XI (XO (XO
+    XH))))))) :: []))))))))))), (Cat ((Rep (true, O, None, (Chr (false,
+    (((Npos (XO (XO (XO (XO (XO XH)))))), (Npos (XO (XO (XO (XO (XO
+    XH))))))) :: (((Npos (XI (XO (XO XH)))), (Npos (XI (XO (XO
+    XH))))) :: (((Npos (XI (XO (XI XH)))), (Npos (XI (XO (XI
+    XH))))) :: (((Npos (XO (XI (XO XH)))), (Npos (XO (XI (XO
+    XH))))) :: [])))))))), (Chr (false, (((Npos (XO (XI (XI (XI (XI XH)))))),
+    (Npos (XO (XI (XI (XI (XI XH))))))) :: []))))))))))))))))))))))))))))
 
 (** val rx_dtd_header : rx **)
 
@@ -3381,10 +3381,33 @@ let rx_po_ws =
     XH))))) :: (((Npos (XO (XI (XO XH)))), (Npos (XO (XI (XO
     XH))))) :: [])))))))
 
+(** val rx_ftl_lead : rx **)
+
+let rx_ftl_lead =
+  Rep (true, O, None, (Chr (false, (((Npos (XO (XO (XO (XO (XO XH)))))),
+    (Npos (XO (XO (XO (XO (XO XH))))))) :: (((Npos (XI (XO (XO XH)))), (Npos
+    (XI (XO (XO XH))))) :: (((Npos (XI (XO (XI XH)))), (Npos (XI (XO (XI
+    XH))))) :: (((Npos (XO (XI (XO XH)))), (Npos (XO (XI (XO
+    XH))))) :: [])))))))
+
+(** val rx_ftl_trail : rx **)
+
+let rx_ftl_trail =
+  Cat ((Rep (true, O, None, (Chr (false, (((Npos (XO (XO (XO (XO (XO
+    XH)))))), (Npos (XO (XO (XO (XO (XO XH))))))) :: (((Npos (XI (XO (XO
+    XH)))), (Npos (XI (XO (XO XH))))) :: (((Npos (XI (XO (XI XH)))), (Npos
+    (XI (XO (XI XH))))) :: (((Npos (XO (XI (XO XH)))), (Npos (XO (XI (XO
+    XH))))) :: [])))))))), (Eol false))
+
+(** val parser_regexes : rx list **)
+
+let parser_regexes =
+  rx_ws_base :: (rx_nl_linecol :: (rx_re_br :: (rx_re_sgml :: (rx_props_key :: (rx_props_comment :: (rx_props_ws :: (rx_props_escaped_end :: (rx_props_trailing_ws :: (rx_props_escape :: (rx_dtd_key :: (rx_dtd_header :: (rx_dtd_comment :: (rx_dtd_pe :: (rx_dtd_ws :: (rx_ini_comment :: (rx_ini_section :: (rx_ini_key :: (rx_ini_ws :: (rx_inc_ws :: (rx_inc_comment :: (rx_inc_key :: (rx_inc_pi :: (rx_po_key :: (rx_po_value :: (rx_po_comment :: (rx_po_listitem :: (rx_po_ws :: (rx_ftl_lead :: (rx_ftl_trail :: [])))))))))))))))))))))))))))))
+
 (** val all_regexes : rx list **)
 
 let all_regexes =
-  rx_ws_base :: (rx_nl_linecol :: (rx_re_br :: (rx_re_sgml :: (rx_props_key :: (rx_props_comment :: (rx_props_ws :: (rx_props_escaped_end :: (rx_props_trailing_ws :: (rx_props_escape :: (rx_dtd_key :: (rx_dtd_header :: (rx_dtd_comment :: (rx_dtd_pe :: (rx_dtd_ws :: (rx_ini_comment :: (rx_ini_section :: (rx_ini_key :: (rx_ini_ws :: (rx_inc_ws :: (rx_inc_comment :: (rx_inc_key :: (rx_inc_pi :: (rx_po_key :: (rx_po_value :: (rx_po_comment :: (rx_po_listitem :: (rx_po_ws :: [])))))))))))))))))))))))))))
+  parser_regexes
 
 (** val the_rx : sx -> rx **)
 
